@@ -439,7 +439,7 @@ func c02pipeline(r *core.Run) {
 				break
 			}
 			if !okp {
-				r.Inconclusive(fmt.Sprintf("pipeline %s: sentinel not seen", name))
+				ps.judgeSentinel(r, okp, fmt.Sprintf("pipeline %s tokens %q", name, tokBytes(ts)))
 				break
 			}
 			r.Count("pipeline_strings", 1)
